@@ -6,6 +6,7 @@ pub open spec fn binter_post(a: BoundSet, b: BoundSet, r: Option<BoundSet>) -> b
             && *x.lower == (if bound_cmp(*a.lower, *b.lower) == Ordering::Greater { *a.lower } else { *b.lower })
             && *x.upper == (if bound_cmp(*a.upper, *b.upper) == Ordering::Greater { *b.upper } else { *a.upper })
             && forall|v: VKey| #![trigger within(x, v)] (within(x, v) <==> (within(a, v) && within(b, v)))
+    &&& (bs_small(a) && bs_small(b)) ==> (r matches Some(x) ==> bs_small(x))
     &&& r is None ==> forall|v: VKey| #![trigger within(a, v), within(b, v)] !(within(a, v) && within(b, v))
 }
 /// every comparator among the first n (garbage tokens are `None`) has v within its bounds
@@ -28,12 +29,14 @@ pub open spec fn conj_post(s: Seq<Option<BoundSet>>, r: Seq<BoundSet>) -> bool {
             && (forall|v: VKey| #![trigger within(r[0], v)] within(r[0], v) <==> all_within(s, n, v))
             && (forall|v: VKey| #![trigger gate(r[0], v)] within(r[0], v) ==> (gate(r[0], v) <==> some_gate(s, n, v)))
     &&& r.len() == 0 ==> !has_some(s, n) || forall|v: VKey| !#[trigger] all_within(s, n, v)
+    &&& all_small(s) ==> ssmall(r)
 }
+pub open spec fn all_small(s: Seq<Option<BoundSet>>) -> bool { forall|i: int| 0 <= i < s.len() ==> ((#[trigger] s[i]) matches Some(b) ==> bs_small(b)) }
 /// loop invariant of `intersect_all` after n comparators
 pub open spec fn conj_inv(s: Seq<Option<BoundSet>>, n: int, acc: Option<BoundSet>) -> bool {
     match acc {
         None => !has_some(s, n),
-        Some(a) => bs_wf(a) && has_some(s, n)
+        Some(a) => bs_wf(a) && has_some(s, n) && (all_small(s) ==> bs_small(a))
             && (forall|v: VKey| #![trigger within(a, v)] within(a, v) <==> all_within(s, n, v))
             && (forall|v: VKey| #![trigger gate(a, v)] within(a, v) ==> (gate(a, v) <==> some_gate(s, n, v))),
     }
